@@ -878,6 +878,8 @@ impl Running {
         ));
         lines.push(format!("seq {}", engine.meta.sequence.0));
         lines.push(format!("processed {}", self.log_len()));
+        // the sequence number counts exactly the processed events (+1 for the audit snapshot)
+        lines.push(format!("seq_off {}", engine.meta.sequence.0 as i64 - self.log_len() as i64));
         lines.push(format!("disabled_calls {}", engine.strategy.disabled_calls));
         lines.push(format!("disconnects {}", engine.strategy.disconnects));
         let obs = observe_state(&self.labels, &engine.state, false);
